@@ -191,9 +191,9 @@ def check_generated(E, R, data, k, c, testnet, account, start, ln, mnemonic, pas
         return
     E.check(set(data.keys()) == {"MASTER", "BIP85", "BIP44", "BIP49", "BIP84"}, prefix + "top-level sections")
     ms = data.get("MASTER", {})
-    E.check(isinstance(ms, dict) and set(ms.keys()) == {"mnemonic", "password"} and ms["mnemonic"] is mnemonic and ms["password"] is password
-            if E.symbolic else ms == {"mnemonic": mnemonic, "password": password},
-            prefix + "MASTER echoes the mnemonic and passphrase")
+    E.check(isinstance(ms, dict) and set(ms.keys()) == {"mnemonic", "password"}, prefix + "MASTER fields")
+    if isinstance(ms, dict) and set(ms.keys()) == {"mnemonic", "password"}:
+        E.check_eq([ms["mnemonic"], ms["password"]], [mnemonic, password], prefix + "MASTER echoes the mnemonic and passphrase")
     for P in PURPOSES:
         sec_ = data.get("BIP%d" % P)
         if not isinstance(sec_, dict) or set(sec_.keys()) != {"account_extended_keys", "groups"}:
